@@ -335,6 +335,38 @@ func isRangeCounter(v ssa.Value) bool {
 	return init && step
 }
 
+// decodeOrdered sorts the two Decode sites of the index reader into (first, repeated) and says
+// why not if their order is not fixed. They may sit in one function (dominance decides), or the
+// repeated one may sit in a helper that the first one's function calls after its own Decode
+// (`err = decodeEach(dec, add)`): then the call site stands for the helper's Decode.
+func (c *Ctx) decodeOrdered(decs []*ssa.Call) (first, rep *ssa.Call, repLoop bool, why string) {
+	a, b := decs[0], decs[1]
+	if a.Parent() == b.Parent() {
+		if eng.Dominates(b, a) {
+			a, b = b, a
+		}
+		if !eng.Dominates(a, b) {
+			return a, b, false, "name and message records are not decoded in a fixed order"
+		}
+		return a, b, len(loopHeaders(b.Block())) == 1 && len(loopHeaders(a.Block())) == 0, ""
+	}
+	for i := 0; i < 2; i++ {
+		// b in a helper called from a's function after a
+		for _, cs := range c.P.StaticCallSites(eng.Outer(b.Parent())) {
+			site, ok := cs.Instr.(*ssa.Call)
+			if !ok || site.Parent() != a.Parent() {
+				continue
+			}
+			if eng.Dominates(a, site) {
+				inLoop := len(loopHeaders(b.Block())) == 1 || len(loopHeaders(site.Block())) == 1
+				return a, b, inLoop && len(loopHeaders(a.Block())) == 0, ""
+			}
+		}
+		a, b = b, a
+	}
+	return decs[0], decs[1], false, "the name and message records are decoded in different functions whose order cannot be decided"
+}
+
 func (c *Ctx) c10Codec(fm *fsModel, readIndex *ssa.Function, msgT *types.Named, fName *types.Var) {
 	r, p := c.R, c.P
 	w := fm.writeIdx
@@ -372,15 +404,16 @@ func (c *Ctx) c10Codec(fm *fsModel, readIndex *ssa.Function, msgT *types.Named, 
 		return a.Type()
 	}
 	var probs []string
-	if len(encs) == 1 && len(decs) == 2 && decs[0].Parent() == decs[1].Parent() {
+	if len(encs) == 1 && len(decs) == 2 {
 		// one Encode in a loop over a record list built as [name, messages...]
-		sort.Slice(decs, func(i, j int) bool { return eng.Dominates(decs[i], decs[j]) })
 		if why := c.c10RecordList(encs[0], fName, msgT); why != "" {
 			probs = append(probs, why)
 		}
+		dA, dB, repLoop, why := c.decodeOrdered(decs)
+		decs[0], decs[1] = dA, dB
 		d0, d1 := argT(decs[0]), argT(decs[1])
-		if !eng.Dominates(decs[0], decs[1]) {
-			probs = append(probs, "name and message records are not decoded in a fixed order")
+		if why != "" {
+			probs = append(probs, why)
 		}
 		if pt, ok := d0.(*types.Pointer); !ok || !isString(pt.Elem()) {
 			probs = append(probs, "the first decoded record ("+d0.String()+") does not match the first encoded record (string)")
@@ -388,19 +421,23 @@ func (c *Ctx) c10Codec(fm *fsModel, readIndex *ssa.Function, msgT *types.Named, 
 		if !types.Identical(d1, types.NewPointer(msgT)) {
 			probs = append(probs, "the repeated decoded record ("+d1.String()+") does not match the encoded one (*file.Message)")
 		}
-		if len(loopHeaders(decs[1].Block())) != 1 || len(loopHeaders(decs[0].Block())) != 0 {
+		if why == "" && !repLoop {
 			probs = append(probs, "records are not read as one name followed by a single loop of messages")
 		}
 	} else if len(encs) != 2 || len(decs) != 2 {
 		probs = append(probs, fmt.Sprintf("expected 2 Encode sites (name, message) and 2 Decode sites, found %d and %d", len(encs), len(decs)))
-	} else if encs[0].Parent() != encs[1].Parent() || decs[0].Parent() != decs[1].Parent() {
-		probs = append(probs, "the name and message records are encoded (or decoded) in different functions: their order cannot be decided")
+	} else if encs[0].Parent() != encs[1].Parent() {
+		probs = append(probs, "the name and message records are encoded in different functions: their order cannot be decided")
 	} else {
 		sort.Slice(encs, func(i, j int) bool { return eng.Dominates(encs[i], encs[j]) })
-		sort.Slice(decs, func(i, j int) bool { return eng.Dominates(decs[i], decs[j]) })
+		dA, dB, repLoop, why := c.decodeOrdered(decs)
+		decs[0], decs[1] = dA, dB
+		if why != "" {
+			probs = append(probs, why)
+		}
 		// order: name first (dominates), message in a loop
-		if !eng.Dominates(encs[0], encs[1]) || !eng.Dominates(decs[0], decs[1]) {
-			probs = append(probs, "name and message records are not encoded/decoded in a fixed order")
+		if !eng.Dominates(encs[0], encs[1]) {
+			probs = append(probs, "name and message records are not encoded in a fixed order")
 		}
 		t0, t1 := argT(encs[0]), argT(encs[1])
 		d0, d1 := argT(decs[0]), argT(decs[1])
@@ -418,10 +455,10 @@ func (c *Ctx) c10Codec(fm *fsModel, readIndex *ssa.Function, msgT *types.Named, 
 		if !types.Identical(d1, t1) {
 			probs = append(probs, "the repeated decoded record ("+d1.String()+") does not match the encoded one ("+t1.String()+")")
 		}
-		if len(loopHeaders(encs[1].Block())) != 1 || len(loopHeaders(decs[1].Block())) != 1 {
+		if len(loopHeaders(encs[1].Block())) != 1 || (why == "" && !repLoop) {
 			probs = append(probs, "message records are not written/read in a single loop")
 		}
-		if len(loopHeaders(encs[0].Block())) != 0 || len(loopHeaders(decs[0].Block())) != 0 {
+		if len(loopHeaders(encs[0].Block())) != 0 {
 			probs = append(probs, "the name record is inside a loop")
 		}
 	}
@@ -596,6 +633,7 @@ func (c *Ctx) errNotSwallowedCallsX(rule string, fns []*ssa.Function, pickCall f
 				return false
 			}
 			var starts []*ssa.BasicBlock
+			startPred := map[*ssa.BasicBlock]*ssa.BasicBlock{}
 			for _, b := range fn.Blocks {
 				for k := 0; k < len(b.Succs) && len(b.Succs) == 2; k++ {
 					rel, ok := eng.EdgeRel(b, k)
@@ -608,8 +646,36 @@ func (c *Ctx) errNotSwallowedCallsX(rule string, fns []*ssa.Function, pickCall f
 					}
 					if eng.IsNilConst(y) && isErr(x) {
 						starts = append(starts, b.Succs[k])
+						startPred[b.Succs[k]] = b
 					}
 				}
+			}
+			// a chained error variable (`err = a(); if err == nil { err = b() }; if err != nil {…}`):
+			// the failure edge of a() enters a block whose φ takes a()'s error from that edge;
+			// a test of that φ in the same block has only its non-nil outcome on this path
+			phiEdgeOK := func(b *ssa.BasicBlock, k int) bool {
+				pred, isStart := startPred[b]
+				if !isStart || len(b.Succs) != 2 {
+					return true
+				}
+				rel, ok := eng.EdgeRel(b, k)
+				if !ok || (rel.Op != token.NEQ && rel.Op != token.EQL) {
+					return true
+				}
+				x, y := rel.X, rel.Y
+				if eng.IsNilConst(x) {
+					x, y = y, x
+				}
+				ph, isPhi := x.(*ssa.Phi)
+				if !eng.IsNilConst(y) || !isPhi || ph.Block() != b {
+					return true
+				}
+				for i, pb := range b.Preds {
+					if pb == pred && i < len(ph.Edges) && isErr(ph.Edges[i]) {
+						return rel.Op == token.NEQ
+					}
+				}
+				return true
 			}
 			if len(starts) == 0 {
 				if errV.Referrers() != nil {
@@ -633,10 +699,13 @@ func (c *Ctx) errNotSwallowedCallsX(rule string, fns []*ssa.Function, pickCall f
 					return true
 				}
 				e := res[len(res)-1]
+				if isErr(e) || isErr(eng.ResolveLocalLoad(e)) {
+					return false // hands back the very error whose failure edge this is
+				}
 				return !(definitelyNonNilErr(e) || eng.KnownNonNil(e, ret.Block()))
 			}
 			for _, st := range starts {
-				if bad := (&eng.Search{Target: succRet, Edge: func(b *ssa.BasicBlock, k int) bool { return !excuse(b, k) }}).FromBlockStart(st); bad != nil {
+				if bad := (&eng.Search{Target: succRet, Edge: func(b *ssa.BasicBlock, k int) bool { return !excuse(b, k) && phiEdgeOK(b, k) }}).FromBlockStart(st); bad != nil {
 					r.Bad(rule, cons, p.InstrPos(bad), "when %s at %s fails, %s can still report success here: %s", short, p.InstrPos(call), shortFn(fn), consequence)
 					return
 				}
@@ -653,7 +722,7 @@ func (c *Ctx) errNotSwallowedCallsX(rule string, fns []*ssa.Function, pickCall f
 						}
 						return false
 					}
-					if bad := (&eng.Search{Target: mis, Edge: func(b *ssa.BasicBlock, k int) bool { return !excuse(b, k) }}).FromBlockStart(st); bad != nil {
+					if bad := (&eng.Search{Target: mis, Edge: func(b *ssa.BasicBlock, k int) bool { return !excuse(b, k) && phiEdgeOK(b, k) }}).FromBlockStart(st); bad != nil {
 						r.Bad(rule, cons, p.InstrPos(bad), "when %s at %s fails, %s %s: %s", short, p.InstrPos(call), shortFn(fn), why, consequence)
 						return
 					}
